@@ -24,8 +24,8 @@ REQUIRED = ['backends/gdb_plugin/extract.py:extract_message', 'backends/gdb_plug
 
 def plan(tier, seed):
     if tier == 'quick':
-        return [{'n': 5000, 'gdb_shim': True} for _ in range(14)] + [{'mode': 'tierb', 'scripts': 1, 'events': 400, 'gdb_shim': True} for _ in range(2)]
-    return [{'n': 30000, 'gdb_shim': True} for _ in range(56)] + [{'mode': 'tierb', 'scripts': 5, 'events': 500, 'gdb_shim': True} for _ in range(8)]
+        return [{'n': 5000, 'gdb_shim': True} for _ in range(12)] + [{'mode': 'tierb', 'scripts': 1, 'events': 400, 'gdb_shim': True} for _ in range(2)] + [{'mode': 'crossmode', 'n': 25, 'gdb_shim': True} for _ in range(2)]
+    return [{'n': 30000, 'gdb_shim': True} for _ in range(48)] + [{'mode': 'tierb', 'scripts': 5, 'events': 500, 'gdb_shim': True} for _ in range(8)] + [{'mode': 'crossmode', 'n': 400, 'gdb_shim': True} for _ in range(8)]
 
 
 def gen_case(rng, pairs):
@@ -305,9 +305,53 @@ def run_tierb(ctx, spec):
             pass
 
 
+def run_crossmode(ctx, spec):
+    """the line GDB mode prints for a closure vs the line log mode prints for libwayland's rendering of the same closure:
+    whole simulated histories go through both pipelines (plugin on the shim / log parser) and the two displays must be equal
+    line by line - time column aside, and array contents aside (the print-out drops them)."""
+    import re
+    from .. import wlxml, streams, history, outline
+    from ..session import Session
+    env.setup(spec)
+    cands = wlxml.shipped(env.REPO)
+    rng = ctx.rng
+    for n in range(spec['n']):
+        st = streams.build(rng, cands, k=rng.randint(1, 3), n_each=(20, 120), tagged=True, dialect={'new': True, 'comma': False})
+        gs = gdbsim.GdbSession()
+        for ci in st['names']:
+            gs.new_connection(ci, st['sides'][ci])
+        gdb_lines = []
+        for e in st['entries']:
+            n0, _ = gs.mark()
+            stop, exc = gs.deliver(gs.event_for(e['ci'], e['rec'], rng, 1))
+            if exc is not None:
+                ctx.violation('crossmode-exception', 'GDB mode raised %r at %r' % (exc, e['line'][:120]), {'lines': [x['line'] for x in st['entries']]})
+                break
+            gdb_lines.append([l for l in gs.written_since(n0) if outline.parse_line(l)['kind'] == 'msg'])
+        else:
+            s = Session()
+            s.feed([e['line'] + '\n' for e in st['entries']])
+            per = s.per_read()
+            for i, e in enumerate(st['entries']):
+                ctx.ev()
+                log = [p for k, p in per.get(i, []) if k == 'out' and outline.parse_line(p)['kind'] == 'msg']
+                a = [re.sub(r'\[[^\[\]]*\]', '[..]', re.sub(r' after -?\d+\.\d{4}s', '', l.strip().split(' ', 1)[1])) for l in gdb_lines[i]]
+                b = [re.sub(r'\[[^\[\]]*\]', '[..]', re.sub(r' after -?\d+\.\d{4}s', '', l.strip().split(' ', 1)[1])) for l in log]
+                has_str_brackets = any(x['k'] == 's' and x['v'] and ('[' in x['v'] or ']' in x['v']) for x in e['rec']['args'])
+                if a != b and not has_str_brackets:
+                    ctx.violation('crossmode-line', 'GDB mode shows %r, log mode shows %r for libwayland\'s print-out %r' % (a, b, e['line'][:200]),
+                                  {'lines': [x['line'] for x in st['entries']], 'index': i})
+                    break
+            ctx.count('crossmode_histories')
+            ctx.count('crossmode_lines', len(st['entries']))
+            ctx.sig(['crossmode', h64([e['line'] for e in st['entries'][:30]])])
+
+
 def run(ctx, spec):
     if spec.get('mode') == 'tierb':
         return run_tierb(ctx, spec)
+    if spec.get('mode') == 'crossmode':
+        return run_crossmode(ctx, spec)
     env.setup(spec)
     world = gdbsim.World()
     from backends.gdb_plugin import extract
